@@ -147,6 +147,30 @@ Check (C08_single_bit_flip_detected_udp_v6 : forall dbg be src dst p i k, bytes 
   cksum_udp_verify dbg be src dst p = Ok true ->
   cksum_udp_verify dbg be src dst (flip_at p i k) = Ok false).
 
+Check (C08_double_bit_flip_icmpv4 : forall dbg be p i1 k1 i2 k2, bytes p ->
+  Z.of_nat (length p) <= cksum_max_len ->
+  (i1 < length p)%nat -> (i2 < length p)%nat -> 0 <= k1 < 8 -> 0 <= k2 < 8 ->
+  (i1 <> i2 \/ k1 <> k2) ->
+  cksum_icmpv4_verify dbg be p = Ok true ->
+  cksum_icmpv4_verify dbg be (flip_at (flip_at p i1 k1) i2 k2) =
+    Ok ((col i1 k1 =? col i2 k2) && xorb (bit_of p i1 k1) (bit_of p i2 k2))).
+
+Check (C08_double_bit_flip_tcp : forall dbg be src dst p i1 k1 i2 k2, bytes p ->
+  addr_ok src -> addr_ok dst -> same_family src dst ->
+  Z.of_nat (length p) <= cksum_max_len ->
+  (i1 < length p)%nat -> (i2 < length p)%nat -> 0 <= k1 < 8 -> 0 <= k2 < 8 ->
+  (i1 <> i2 \/ k1 <> k2) ->
+  cksum_tcp_verify dbg be src dst p = Ok true ->
+  cksum_tcp_verify dbg be src dst (flip_at (flip_at p i1 k1) i2 k2) =
+    Ok ((col i1 k1 =? col i2 k2) && xorb (bit_of p i1 k1) (bit_of p i2 k2))).
+
+Check (C08_double_bit_flip_generic : forall P region i1 k1 i2 k2, 0 <= P -> bytes region ->
+  (i1 < length region)%nat -> (i2 < length region)%nat -> 0 <= k1 < 8 -> 0 <= k2 < 8 ->
+  (i1 <> i2 \/ k1 <> k2) ->
+  gen_verify P region = true ->
+  gen_verify P (flip_at (flip_at region i1 k1) i2 k2) =
+    (col i1 k1 =? col i2 k2) && xorb (bit_of region i1 k1) (bit_of region i2 k2)).
+
 Check (C08_parse_rejects_bad_checksum : forall dbg be,
   (forall p, cksum_ipv4_verify dbg be p = Ok false -> cksum_ipv4_parse_check true dbg be p = Ok false) /\
   (forall p, cksum_icmpv4_verify dbg be p = Ok false -> cksum_icmpv4_parse_check true dbg be p = Ok false) /\
